@@ -10,7 +10,7 @@ import argparse, json, os, sys, traceback
 sys.path.insert(0, os.path.dirname(os.path.abspath(__file__)))
 import vlib
 from vlib import Broken, log
-import props
+import props, props2
 
 
 def main():
